@@ -14,10 +14,17 @@ C.CONFIGS.setdefault("plain", ["-O0"])
 
 HDR = """#include <covfie/core/utility/static_permutation.hpp>
 #include <cstdio>
+#include <type_traits>
 #include <utility>
 using namespace covfie::utility;
 template <std::size_t... Is> void ps(std::index_sequence<Is...>) { if (sizeof...(Is) == 0) std::printf("-"); ((std::printf("%zu ", Is)), ...); std::printf("\\n"); }
 template <std::size_t... Is> using S = std::index_sequence<Is...>;
+// the predicate asked in every way a standard trait can be asked: ::value, ::type::value, conversion to bool, the call operator,
+// derivation from true_type -- 0 / 1 when they all agree, 2 + value otherwise
+template <typename P> constexpr int ask() {
+  constexpr bool v = P::value, t = P::type::value, c = P{}, f = P{}(), b = std::is_base_of_v<std::true_type, P>;
+  return (v == t && v == c && v == f && v == b) ? int(v) : 2 + int(v);
+}
 int main() {
 """
 
@@ -33,9 +40,16 @@ def cs(s):
     return "S<" + ", ".join(f"{x}ul" for x in s) + ">"
 
 
-def evaluate(ctx, sorts, pairs):
+def evaluate(ctx, sorts, pairs, cfgs=("plain", "clang")):
     corr = Corr()
     corr.add_obl("static_sort"); corr.add_obl("static_perm"); corr.add_obl("tu_compiles")
+    for cfg in cfgs:          # g++ and clang++: the same templates through two front ends (different builtins, e.g. __type_pack_element)
+        evaluate_cfg(ctx, corr, sorts, pairs, cfg)
+    corr.violations.sort(key=lambda v: (not v["oracle_fails"], len(str(v["case"]))))
+    return corr
+
+
+def evaluate_cfg(ctx, corr, sorts, pairs, cfg):
     items = [("s", s) for s in sorts] + [("p", p) for p in pairs]
     nt = max(1, min(C.NCPU, len(items) // 400 + 1))
     chunks = [items[k::nt] for k in range(nt)]
@@ -46,10 +60,10 @@ def evaluate(ctx, sorts, pairs):
             if kind == "s":
                 body.append(f"  ps(sort_index_sequence<{cs(it)}>::type{{}});")
             else:
-                body.append(f"  std::printf(\"%d\\n\", int(is_permutation<{cs(it[0])}, {cs(it[1])}>::value));")
-        src = ctx.work.path(f"perm_{k}.cpp")
+                body.append(f"  std::printf(\"%d\\n\", ask<is_permutation<{cs(it[0])}, {cs(it[1])}>>());")
+        src = ctx.work.path(f"perm_{cfg}_{k}.cpp")
         src.write_text(HDR + "\n".join(body) + "\n}\n")
-        jobs.append((src, ctx.work.path(f"perm_{k}"), "plain", ["-ftemplate-depth=4000"]))
+        jobs.append((src, ctx.work.path(f"perm_{cfg}_{k}"), cfg, ["-ftemplate-depth=4000"]))
     res = C.compile_many(jobs, timeout=1500)
     outs = []
     for (src, exe, _, _), (rc, err), ch in zip(jobs, res, chunks):
@@ -67,7 +81,7 @@ def evaluate(ctx, sorts, pairs):
               for kind, it, _ in flat]
     mout = C.run_driver("driver", mlines)
     for (kind, it, o), m in zip(flat, mout):
-        corr.configs["plain"] += 1
+        corr.configs[cfg] += 1
         if kind == "s":
             corr.case(("s", it), len(it) >= 2 and it != sorted(it))
             corr.dist[f"sort/len{len(it)}"] += 1
@@ -78,7 +92,7 @@ def evaluate(ctx, sorts, pairs):
             cj = {"sort": it}
             if got != want:
                 corr.violation("static_sort", f"sort_index_sequence<{it}> = [{got}], ascending rearrangement is [{want}]", cj, impl=got, model=m,
-                               oracle_fails=True, key={"kind": "sort", "seq": it})
+                               oracle_fails=True, key={"kind": "sort", "seq": it}, cfg=cfg)
             elif dis:
                 corr.violation("static_sort", f"sort_index_sequence<{it}> = [{got}], model [{m}]", cj, impl=got, model=m, oracle_fails=False, key={"kind": "sort", "seq": it})
             if len(corr.samples) < 4 and len(it) >= 4 and it != sorted(it) and len(set(it)) < len(it):
@@ -93,13 +107,11 @@ def evaluate(ctx, sorts, pairs):
             cj = {"perm": [a, b]}
             if o.strip() != want:
                 corr.violation("static_perm", f"is_permutation<{a}, {b}> = {o.strip()}, multisets are {'equal' if want == '1' else 'different'}", cj,
-                               impl=o, model=m, oracle_fails=True, key={"kind": "perm", "a": a, "b": b})
+                               impl=o, model=m, oracle_fails=True, key={"kind": "perm", "a": a, "b": b}, cfg=cfg)
             elif dis:
                 corr.violation("static_perm", f"is_permutation<{a}, {b}> = {o.strip()}, model {m}", cj, impl=o, model=m, oracle_fails=False, key={"kind": "perm", "a": a, "b": b})
             if len(corr.samples) < 8 and len(a) == len(b) >= 3 and want == "1" and a != b:
                 corr.sample({"perm": [a, b], "impl": o, "model": m})
-    corr.violations.sort(key=lambda v: (not v["oracle_fails"], len(str(v["case"]))))
-    return corr
 
 
 def run(ctx):
